@@ -276,7 +276,7 @@ def body(ctx):
 
 
 def run(ctx):
-    hyp_run(ctx, 'c05.scenario', CASE, body(ctx), ctx.pick(20, 300))
+    hyp_run(ctx, 'c05.scenario', CASE, body(ctx), ctx.pick(20, 1000))
 
 
 def replay(ctx, check, case):
